@@ -173,7 +173,7 @@ impl<'a> G<'a> {
         self.d_inc(); if self.u.coin(1, 2) { self.let_stmt(); } else { self.put_stmt(); } self.depth -= 1;
         self.p(" e"); self.tp(); self.p("\"");
     }
-    fn mvar(&mut self, dots: bool) { self.feat("mvar"); let v = self.pick(MVARS); match self.u.below(if dots { 12 } else { 8 }) { 0 if self.u.coin(1, 3) => { self.feat("mvar-odd-continuation-run"); let f = self.pick(&["&a&&&b..c", "&a&&&&&b..z", "&a&&&&&&&b...z", "&&&a&&&b..z", "&a&&&b.c", "&v&&&&&&w.."]); self.p(f); } 0 | 1 => { self.p("&"); self.p(v); } 2 => { self.p("&"); self.p(v); self.p("."); } 3 => { self.p("&&"); self.p(v); self.p("&i"); } 4 => { self.p("&&&"); self.p(v); } 5 => { self.feat("mvar-forms"); self.p("&&&&"); self.p(v); self.p("."); } 6 => { self.feat("mvar-forms"); self.p("&"); self.p(v); self.p(".&"); self.p(v); self.p("."); } 7 => { self.feat("mvar-forms"); self.p("&&"); self.p(v); self.p("&&i."); } 8 => { self.p("&"); self.p(v); self.p("&n1.."); } 9 => { self.feat("mvar-forms"); self.p("&"); self.p(v); self.p("._x"); } 10 => { self.feat("mvar-forms"); self.p("&&pre&i.._suf"); } _ => { self.feat("mvar-forms"); self.p("&"); self.p(v); self.p("..x"); } } }
+    fn mvar(&mut self, dots: bool) { self.feat("mvar"); let rn = self.rand_name(); let v = if self.u.coin(1, 6) { rn.as_str() } else { self.pick(MVARS) }; match self.u.below(if dots { 12 } else { 8 }) { 0 if self.u.coin(1, 3) => { self.feat("mvar-odd-continuation-run"); let f = self.pick(&["&a&&&b..c", "&a&&&&&b..z", "&a&&&&&&&b...z", "&&&a&&&b..z", "&a&&&b.c", "&v&&&&&&w.."]); self.p(f); } 0 | 1 => { self.p("&"); self.p(v); } 2 => { self.p("&"); self.p(v); self.p("."); } 3 => { self.p("&&"); self.p(v); self.p("&i"); } 4 => { self.p("&&&"); self.p(v); } 5 => { self.feat("mvar-forms"); self.p("&&&&"); self.p(v); self.p("."); } 6 => { self.feat("mvar-forms"); self.p("&"); self.p(v); self.p(".&"); self.p(v); self.p("."); } 7 => { self.feat("mvar-forms"); self.p("&&"); self.p(v); self.p("&&i."); } 8 => { self.p("&"); self.p(v); self.p("&n1.."); } 9 => { self.feat("mvar-forms"); self.p("&"); self.p(v); self.p("._x"); } 10 => { self.feat("mvar-forms"); self.p("&&pre&i.._suf"); } _ => { self.feat("mvar-forms"); self.p("&"); self.p(v); self.p("..x"); } } }
 
     // ---------- macro calls
     // ctx: 0 = open code / text, 1 = inside string expr, 2 = inside macro arg/value
@@ -185,7 +185,8 @@ impl<'a> G<'a> {
     }
     fn user_call_inner(&mut self, _ctx: usize) {
         self.feat("user-call");
-        let name = self.pick(CALLNAMES); self.p("%"); self.p(name);
+        let rn = self.rand_name();
+        let name = if self.u.coin(1, 6) { rn.as_str() } else { self.pick(CALLNAMES) }; self.p("%"); self.p(name);
         if !name.is_ascii() { self.feat("non-ascii-macro-name"); }
         if self.u.coin(1, 3) { return; } // argless; callers add a non-( follower
         self.ows();
